@@ -80,6 +80,17 @@ impl FloatCachePolicy {
             .collect()
     }
 
+    /// the float key every member of `key`'s bucket is rounded to. a value
+    /// computed at this point depends on the bucket only, not on which of
+    /// its members happened to be looked up first.
+    pub fn rounded_key(&self, key: &[f64]) -> Vec<f64> {
+        self.float_key_to_int_key(key)
+            .iter()
+            .zip(self.key_precisions.iter())
+            .map(|(v, p)| *v as f64 / 10f64.powi(*p))
+            .collect()
+    }
+
     pub fn get(&self, key: &[f64]) -> Result<Option<f64>, CacheError> {
         let int_key = self.float_key_to_int_key(key);
         let mut cache = self.cache.lock().map_err(|e| {
